@@ -1287,36 +1287,22 @@ class RewriteAtQuery(NodeTransformer):
             and node._location == self.search[:-1]
         ):
             if isinstance(self.replacement_node, (AnnAssign, Assign)):
-                # Set default
-                if isinstance(self.replacement_node, AnnAssign):
-                    idx = next(
-                        (
-                            _arg._idx
-                            for _arg in node.args.args
-                            if _arg.arg == self.replacement_node.target.id
-                            and hasattr(_arg, "_idx")
-                        ),
-                        None,
-                    )
-                else:
-                    idx = next(
-                        filter(
-                            None,
-                            (
-                                _arg._idx if _arg.arg == target.id else None
-                                for target in self.replacement_node.targets
-                                for _arg in node.args.args
-                                if hasattr(_arg, "_idx")
-                            ),
-                        ),
-                        None,
-                    )
+                # Set default of the parameter being replaced; `defaults` aligns with the *last* n of `args`
+                idx = next(
+                    (
+                        pos - (len(node.args.args) - len(node.args.defaults))
+                        for pos, _arg in enumerate(node.args.args)
+                        if getattr(_arg, "_location", None) == self.search
+                    ),
+                    None,
+                )
+                if not isinstance(self.replacement_node, AnnAssign):
                     self.replacement_node = set_arg(
                         arg=self.replacement_node.targets[0].id,
                         annotation=self.replacement_node.value,
                     )
 
-                if idx is not None and len(node.args.defaults) > idx:
+                if idx is not None and 0 <= idx < len(node.args.defaults):
                     new_default = get_value(self.replacement_node)
                     if new_default not in none_types:
                         node.args.defaults[idx] = new_default
